@@ -37,7 +37,9 @@ ASSUMPTIONS = [
 RULE = ("grammar-generated dependency strings per element class (atom/DEPEND, LICENSE, RESTRICT, SRC_URI with renames, REQUIRED_USE, REQUIRED_USE of an "
         "EAPI without ??): nested all-of/any-of/^^/??/conditional/negated-conditional groups to depth 4 incl. single-child and same-kind nested groups, "
         "random white space, 0-2 token-level corruptions in about a third of the cases; every subset of the referenced flags (<=5 flags) and every "
-        "subset of the elements (<=4 elements, else 12 random subsets) as valuations; non-trivial = the string parses and has a group or a conditional, "
+        "subset of the elements (<=4 elements, else 12 random subsets) as valuations; then evaluation histories: one DepSet object asked 3-8 "
+        "more times with the caller's own mutable set / list changed in place between the calls (single toggles, jumps, the same content "
+        "again) and fresh frozensets interleaved, every answer judged for the content at the time of the call; non-trivial = the string parses and has a group or a conditional, "
         "or it is a corrupted string")
 
 CLASSES = ["atom", "license", "restrict", "src_uri", "required_use", "required_use_eapi4"]
@@ -594,6 +596,95 @@ def run(ctx):
                     ctx.mismatch(vcase, f"harness evaluation of the evaluated structure {got} differs from the spec's readings {abs_ev}/{pms_ev}")
     ctx.extra["evaluate_depset_calls"] = nev
 
+    # ---- pass 2b: evaluation histories.  The property holds for every call: one DepSet object is asked again and again, with
+    # the caller's *own mutable* flag containers changed in place between the calls (a set, a list), other containers and fresh
+    # frozensets interleaved, the same content asked twice in a row.  Every answer is judged like a first answer for the
+    # content the container has at the time of the call.
+    def set_to(container, target):
+        """mutate the caller's container in place until it holds exactly `target`"""
+        cur = set(container)
+        if isinstance(container, set):
+            for f in sorted(cur - set(target)):
+                container.discard(f)
+            for f in sorted(set(target) - cur):
+                container.add(f)
+        else:
+            for f in sorted(cur - set(target)):
+                container.remove(f)
+            for f in sorted(set(target) - cur):
+                container.insert(rng.randint(0, len(container)), f)
+
+    nhist = 0
+    for (case, cls, d, j, flagsets, presents), rep in zip(eval_meta, ereplies):
+        if rep == "bad-op" or not isinstance(rep, list) or len(flagsets) < 2:
+            continue
+        if ctx.quick() and len(flagsets) > 2 and rng.random() < 0.35:
+            continue
+        by_content = {tuple(sorted(fs)): out for fs, out in zip(flagsets, rep)}
+        states = list(by_content)
+        boxes = {"set": set(), "list": []}
+        start = rng.choice(states)
+        set_to(boxes["set"], start)
+        set_to(boxes["list"], rng.choice(states))
+        history = []
+        for _step in range(rng.choice([3, 4, 5, 6, 8])):
+            r = rng.random()
+            if r < 0.55:
+                which = "set"
+            elif r < 0.8:
+                which = "list"
+            else:
+                which = "fresh"
+            if which == "fresh":
+                content = rng.choice(states)
+                container = frozenset(content)
+            else:
+                container = boxes[which]
+                cur = tuple(sorted(container))
+                r2 = rng.random()
+                if r2 < 0.2:
+                    content = cur                                   # ask the same thing again
+                else:
+                    near = [st for st in states if len(set(st) ^ set(cur)) == 1]
+                    content = rng.choice(near) if near and r2 < 0.75 else rng.choice(states)
+                    set_to(container, content)
+            history.append([which, list(content)])
+            out = by_content[tuple(sorted(content))]
+            hcase = dict(case, flags=list(content), history=[list(h) for h in history])
+            try:
+                ev = d.evaluate_depset(container)
+                ej = [real.to_json(r) for r in ev.restrictions]
+            except Exception as e:
+                ctx.violation(hcase, f"evaluate_depset (call {len(history)} on this object) raised {type(e).__name__}: {e}")
+                break
+            nhist += 1
+            ctx.evaluations += 1
+            if flags_of(ej, []):
+                ctx.violation(hcase, f"evaluated structure (call {len(history)} on this object) still has conditionals: {ej}")
+                break
+            if ej == out["ev"]:
+                continue
+            # not what the model (and the first pass) gives for this flag set: does the meaning differ?
+            bad = None
+            for pres, sat in zip(presents, out["sat"]):
+                try:
+                    got = all(real.holds(r, set(pres)) for r in ev.restrictions)
+                except Exception:
+                    continue
+                if got != sat[0]:
+                    bad = (pres, got, sat[0])
+                    break
+            if bad:
+                ctx.violation(dict(hcase, present=sorted(bad[0])),
+                              f"call {len(history)} on this object, flags {list(content)}: evaluated structure {ej} is "
+                              f"{'satisfied' if bad[1] else 'not satisfied'} by the elements, the original read under these flags is "
+                              f"{'satisfied' if bad[2] else 'not satisfied'} (asked on its own the same flag set evaluates to {out['ev']})")
+            else:
+                ctx.mismatch(hcase, f"call {len(history)} on this object evaluates to {ej}, the model {out['ev']}")
+            break
+        ctx.count("eval_history_len_%d" % min(len(history), 8))
+    ctx.extra["evaluate_depset_history_calls"] = nhist
+
     # ---- REQUIRED_USE: on whole evaluated structures the classes' own match() over enabled flags agrees with `holds`
     nm = 0
     for (case, cls, d, j, flagsets, presents) in eval_meta:
@@ -708,4 +799,6 @@ LEVEL_TEXT = ("Kernel-checked Lean 4 theorems about a model of DepSet.parse (the
               "reading, all tame structures, with a proved counterexample outside). The model is tied to the code by a differential run on "
               "grammar-generated and corrupted strings of six element classes, which also evaluates the property on the real objects.")
 LEVEL_NOTE = ("Trusted: Lean kernel; str.split tokenisation; element text round-trip of atoms (C03); tristate_filter=None. One open finding: an "
-              "all-of/any-of group emptied by conditionals directly inside ||/^^/?? is dropped (as Portage does) where PMS counts it as matched.")
+              "all-of/any-of group emptied by conditionals directly inside ||/^^/?? is dropped (as Portage does) where PMS counts it as matched. "
+              "The model of evaluate_depset is a function of (structure, flag set); that the real method is one too (no result remembered "
+              "across calls, no aliasing of the caller's container) is checked by the evaluation histories only.")
